@@ -2027,7 +2027,7 @@ def r9_enumerate(toks, counts):
 
 
 R26_SOURCES = ('iter', 'into_iter', 'keys', 'values')
-R26_ADAPTERS = ('filter', 'map', 'filter_map', 'copied', 'cloned')
+R26_ADAPTERS = ('filter', 'map', 'filter_map', 'map_while', 'copied', 'cloned')
 R26_TERMINALS = ('collect', 'count', 'for_each', 'all', 'any')
 
 
@@ -2049,6 +2049,10 @@ def _parse_closure(arg):
     k = next_sig(arg, 0)
     if k < len(arg) and is_id(arg[k], 'move'):
         k = next_sig(arg, k + 1)
+    if k < len(arg) and arg[k][0] == 'id' and all(t[0] in TRIVIA or t[0] == 'id' or is_p(t, ':') for t in arg):
+        # a function path in place of a closure (`.map_while(SyncOp::from_op)`) is `|v| PATH(v)`
+        path = _flat(arg).strip()
+        return 'r26_v', rtok.tokenize('%s(r26_v)' % path)
     if k >= len(arg) or not is_p(arg[k], '|'):
         return None
     j = k + 1
@@ -2123,7 +2127,7 @@ def _r26_parse_stages(toks, j):
         return None, j
     parsed = []
     for (name, arg, tf) in stages:
-        if name in ('filter', 'map', 'filter_map', 'for_each', 'all', 'any'):
+        if name in ('filter', 'map', 'filter_map', 'map_while', 'for_each', 'all', 'any'):
             c = _parse_closure(arg)
             if c is None:
                 return None, j
@@ -2191,6 +2195,19 @@ def _r26_emit(parsed, target, source_text, ind0, P):
             nxt = '%sy%d' % (P, ycount)
             lines.append(depth_ind + 'let %s = %s;' % (pat, cur))
             lines.append(depth_ind + 'let %so%d = %s;' % (P, ycount, _body_text(body, depth_ind)))
+            lines.append(depth_ind + 'if let Some(%s) = %so%d {' % (nxt, P, ycount))
+            closers.append(depth_ind + '}')
+            depth_ind += '    '
+            cur = nxt
+        elif name == 'map_while':
+            # "yields elements while the closure returns Some": the first None ends the iteration
+            ycount += 1
+            nxt = '%sy%d' % (P, ycount)
+            lines.append(depth_ind + 'let %s = %s;' % (pat, cur))
+            lines.append(depth_ind + 'let %so%d = %s;' % (P, ycount, _body_text(body, depth_ind)))
+            lines.append(depth_ind + 'if %so%d.is_none() {' % (P, ycount))
+            lines.append(depth_ind + '    break;')
+            lines.append(depth_ind + '}')
             lines.append(depth_ind + 'if let Some(%s) = %so%d {' % (nxt, P, ycount))
             closers.append(depth_ind + '}')
             depth_ind += '    '
